@@ -943,6 +943,98 @@ func rulesC03Ante(w *World, o *Out, fl *Flow, ah *ssa.Function) {
 		o.Check("C03.R2", "AnteHandle|next message reached only past an acceptance #"+itoa(advOrd), okAdv, w.Pos(p.Instrs[len(p.Instrs)-1].Pos()),
 			"the per-message loop may advance only when the message has no metadata, is signed by its creator, or has a signer among the creator's grantees; "+how)
 	}
+	// (e) the per-message loop is left towards next() only by exhausting the messages: an exit out of the
+	// body (a `break`) that can reach the call of the next handler skips the messages that follow
+	isNext := func(b *ssa.BasicBlock) bool {
+		for _, in := range b.Instrs {
+			if c, ok := in.(ssa.CallInstruction); ok {
+				if p, ok := c.Common().Value.(*ssa.Parameter); ok && p.Name() == "next" {
+					return true
+				}
+			}
+		}
+		return false
+	}
+	nExit := 0
+	for _, b := range ah.Blocks {
+		if !body[b] || b == hdr {
+			continue
+		}
+		for _, s := range b.Succs {
+			if body[s] {
+				continue
+			}
+			nExit++
+			seen := map[*ssa.BasicBlock]bool{}
+			stack := []*ssa.BasicBlock{s}
+			reaches := false
+			for len(stack) > 0 {
+				x := stack[len(stack)-1]
+				stack = stack[:len(stack)-1]
+				if seen[x] {
+					continue
+				}
+				seen[x] = true
+				if isNext(x) {
+					reaches = true
+				}
+				stack = append(stack, x.Succs...)
+			}
+			pos := w.Pos(ah.Pos())
+			if len(b.Instrs) > 0 {
+				pos = w.Pos(b.Instrs[len(b.Instrs)-1].Pos())
+			}
+			o.Check("C03.R2", "AnteHandle|the message loop is left only with an error or after the last message #"+itoa(nExit), !reaches, pos,
+				"an exit out of the per-message loop body reaches the next handler: the messages after this one are never verified")
+		}
+	}
+	o.Count("C03.R2 exits out of the per-message loop body", nExit, 2)
+	// (f) the messages verified include every message wrapped in an authz MsgExec at any depth: the function
+	// that opens the envelopes hands what it finds to itself, or walks a work list whose bound is re-read
+	nOpen := 0
+	for _, s := range FindCalls(ah, false, func(c Callee) bool { return c.Static != nil && strings.HasSuffix(c.Pkg, "x/paloma") && c.Recv == "" }) {
+		uf := s.Callee.Static
+		gm := FindCalls(uf, false, isCallee("", "MsgExec", "GetMessages"))
+		if len(gm) == 0 {
+			continue
+		}
+		for _, g := range gm {
+			okRec, how := false, "the messages found in an envelope are not opened themselves"
+			for _, rc := range FindCalls(uf, false, func(c Callee) bool { return c.Static == uf }) {
+				for _, a := range rc.Args() {
+					if fl.DependsOnCall(a, func(c Callee) bool { return c.Name == "GetMessages" && c.Recv == "MsgExec" }) != nil {
+						okRec, how = true, "recursive call on the envelope's messages"
+					}
+				}
+			}
+			if !okRec {
+				// work-list form: the loop that type-tests for MsgExec is bounded by len() of a value that the
+				// append of the inner messages flows back into (a phi), re-evaluated on every iteration
+				for _, b := range uf.Blocks {
+					for _, in := range b.Instrs {
+						bo, ok := in.(*ssa.BinOp)
+						if !ok || bo.Op != token.LSS {
+							continue
+						}
+						lc, ok := bo.Y.(*ssa.Call)
+						if !ok {
+							continue
+						}
+						if bi, ok := lc.Call.Value.(*ssa.Builtin); !ok || bi.Name() != "len" {
+							continue
+						}
+						if _, isPhi := lc.Call.Args[0].(*ssa.Phi); isPhi && b.Dominates(g.Block()) &&
+							fl.DependsOnCall(lc.Call.Args[0], func(c Callee) bool { return c.Name == "GetMessages" && c.Recv == "MsgExec" }) != nil {
+							okRec, how = true, "work list bounded by its current length"
+						}
+					}
+				}
+			}
+			o.Check("C03.R2", "AnteHandle|messages inside an authz MsgExec are opened at every depth", okRec, w.Pos(g.Instr.Pos()), how)
+			nOpen++
+		}
+	}
+	o.Count("C03.R2 places where the decorator opens an authz envelope", nOpen, 1)
 	// (d) next() reached only after the loop completes
 	for _, s := range CallsIn(ah) {
 		if s.Callee.Name == "<dynamic>" {
